@@ -4,17 +4,23 @@ SPEC = {
     "lean_project": "AgdbStorage",
     "props_module": "AgdbStorage.Props.C01",
     "audit_file": "AgdbStorage/Audit/C01.lean",
-    "full_theorems": ["C01_recover_every_crash_point", "C01_drop", "C01_recovered_length", "C01_flush_commits"],
+    "full_theorems": ["C01_recover_every_crash_point", "C01_drop", "C01_recovered_length", "C01_flush_commits",
+                      # nested transactions at the Storage level (Props/C01b.lean) + every call Storage issues is well-formed (Props/C04.lean)
+                      "C01b_txn_balanced", "C01b_flush_outermost", "C01b_commit", "C01b_begin", "C01b_error_unchanged",
+                      "C01b_never_fails", "C01b_replace_missing", "C01b_replace_error_txn", "C01b_moveAt_early_error",
+                      "C01b_moveAt_error_txn", "C04_calls_wellformed"],
+    "extra_lean_targets": ["AgdbStorage.Props.C01b", "AgdbStorage.Props.C04"],
     "partial_theorems": [],
     "counterexamples": ["C01_replay_order_counterexample", "C01_zero_len_counterexample",
-                        "C01_grow_counterexample", "C01_zero_len_counterexample_newest_first"],
+                        "C01_grow_counterexample", "C01_zero_len_counterexample_newest_first",
+                        "C01b_replace_stuck_txn_counterexample"],
     "driver": "storagemodel",
     "harness_bin": "harness_storage",
     "level": "proof",
     "level_text": ("Lean 4 theorem C01_recover_every_crash_point: for every initial content, every well-formed sequence of "
                    "FileStorage write/resize/flush calls and every crash point (between any two mutating file-system calls, or "
                    "inside any write_all on the data file or the log = torn write), recovery yields exactly the content at the last "
-                   "completed flush and an empty log; C01_drop for Drop with an unfinished transaction. Proved by an inductive "
+                   "completed flush and an empty log; C01_drop for Drop with an unfinished transaction; C01b_flush_outermost: every Storage operation (insert, insert_at, replace, resize, move, remove, optimize) at any nesting depth clears the log exactly when the outermost transaction completes, as its last call; C04_calls_wellformed: every write a Storage operation issues from any reachable state satisfies the well-formedness hypothesis of the recovery theorem. Proved by an inductive "
                    "invariant (log = complete records whose newest-first undo gives the committed image). The model (Model/Wal.lean) is "
                    "tied to the code on every run by the `wal` correspondence stream: the real FileStorage is driven with generated call "
                    "sequences, both files are snapshotted before every mutating fs call (hook H1) and the byte images are compared with the "
@@ -22,7 +28,8 @@ SPEC = {
     "level_note": ("Trusted: Lean kernel; the hand-written model being faithful (validated, not verified, by the wal stream); "
                    "POSIX semantics at write/ftruncate granularity with torn writes being byte prefixes; no reordering of un-fsynced writes "
                    "(the code never syncs). Well-formedness hypothesis: writes lie inside the file or start exactly at its end "
-                   "(what Storage issues; checked on the real Storage by the C04 stream)."),
+                   "(proved for the Storage model: C04_calls_wellformed; checked on the real Storage on every call by the st stream). "
+                   "Known model-level observation kept visible (C01b_replace_stuck_txn_counterexample): replace() on a missing index returns an error with the depth left incremented (not reachable from the database layer)."),
     "technique": "Lean 4 inductive-invariant proof over syscall prefixes + differential correspondence at every fs call",
     "design_ref": "DESIGN.md §6 C01",
     "assumptions": ["crash = prefix of fs calls, optionally a byte-prefix of one write_all; set_len atomic",
